@@ -1025,13 +1025,147 @@ def exhaustive_cases(perms):
     return cases
 
 
+def stmt_to_json(s):
+    if s[0] == "I":
+        return ["I", s[1], list(s[2]) if s[2][0] != "N" else ["N", list(s[2][1])]]
+    if s[0] == "F":
+        return ["F", s[1], s[2], [stmt_to_json(x) for x in s[3]]]
+    if s[0] == "B":
+        return ["B", list(s[1]), [stmt_to_json(x) for x in s[2]]]
+    return list(s)
+
+
+def stmt_from_json(s):
+    if s[0] == "I":
+        f = s[2]
+        return ("I", s[1], ("N", list(f[1])) if f[0] == "N" else tuple(f))
+    if s[0] == "F":
+        return ("F", s[1], bool(s[2]), [stmt_from_json(x) for x in s[3]])
+    if s[0] == "B":
+        return ("B", tuple(s[1]), [stmt_from_json(x) for x in s[2]])
+    return tuple(s)
+
+
+def case_to_json(c, note=""):
+    return dict(root=c["root"], shape=c.get("shape", "corpus"), note=note, probe=bool(c.get("probe")), missing=c.get("missing", []),
+                mods={rel: [stmt_to_json(x) for x in st] for rel, st in c["mods"].items()})
+
+
+def case_from_json(j, cid):
+    c = dict(id=cid, root=j["root"], shape="corpus", probe=bool(j.get("probe")), mods={rel: [stmt_from_json(x) for x in st] for rel, st in j["mods"].items()})
+    if j.get("missing"):
+        c["missing"] = list(j["missing"])
+    return c
+
+
+class Collector:
+    """stands in for Check while a candidate of the shrinker is judged"""
+    def __init__(self):
+        self.items = []
+
+    def violation(self, key, what, replay, no_input=False):
+        self.items.append((key, what, replay))
+        return True
+
+
+def evaluate(env, cases, sink, cyc_sample=7):
+    """materialise, run model + frontend + backend, judge. sink.violation receives the property violations.
+    Returns (per-case mismatch lists, stats, backend results)."""
+    b, parsex, model, codes, base = env
+    for c in cases:
+        for k in [k for k in c if k.startswith("_") and k != "_env"]:
+            del c[k]
+        materialise(c, base)
+    inp = "\n".join(l for c in cases for l in c["_model_in"]) + "\n"
+    mp = subprocess.run([model], input=inp, capture_output=True, text=True, timeout=1800)
+    mlines = {l.split(" ", 1)[0]: l for l in mp.stdout.splitlines()}
+    if mp.returncode != 0 or len(mlines) != len(cases):
+        raise RuntimeError("extracted model failed: rc=%s %s" % (mp.returncode, mp.stderr[-500:]))
+    fres = run_frontend(parsex, b, cases)
+    todo = []
+    for c in cases:
+        r = fres.get(c["id"])
+        if r is None:
+            r = dict(obs=dict(panic="parsex died on this input", diags=[]))
+            fres[c["id"]] = r
+        c["_idiags"] = impl_diags(c, r, codes)
+        acc = not c["_idiags"] and not r["obs"].get("panic") and not r["obs"].get("err")
+        macc = mlines[c["id"]].split(" out=", 1)[1] != "none"
+        cyc = has_cycle(static_graph(c), c["root"])
+        # cyclic graphs are also handed to kddp (all random ones, a sample of the enumerated ones): no executable may come out
+        if acc or macc or (cyc and c["shape"] != "exhaustive3") or (cyc and int(c["id"][2:]) % cyc_sample == 0):
+            todo.append(c)
+    bres = dict(zip([c["id"] for c in todo], vlib.pmap(lambda c: run_backend(b, c), todo)))
+    # flattened module names of all compiled cases in one model call
+    paths = [(c["id"], r, os.path.join(c["_dir"], r)) for c in todo for r in sorted(c["mods"])]
+    hs = hashables(model, [p for _, _, p in paths]) if paths else []
+    hmaps = {}
+    for (cid, r, _), h in zip(paths, hs):
+        hmaps.setdefault(cid, {})[r] = h
+    stats = dict(cyclic=0, compiled=0, ran=0, badname_imports=0, invisible_probes=0, outside_model_domain=0, rejected=0, accepted=0)
+    mism = {}
+    for c in cases:
+        m, acc, macc = judge(sink, c, fres[c["id"]], mlines[c["id"]], bres.get(c["id"]), hmaps.get(c["id"], {}), stats)
+        stats["accepted" if acc else "rejected"] += 1
+        if m and not in_model_domain(c):
+            stats["outside_model_domain"] += 1
+            m = []
+        if m:
+            mism[c["id"]] = m
+    return mism, stats, bres
+
+
+def key_head(key):
+    """'toplevel init-count=2 mods=..' -> 'toplevel init-count'"""
+    f = key.split()
+    return " ".join(f[:2]).split("=")[0]
+
+
+def shrink_case(env, case, head, budget=40):
+    """greedy removal of statements / modules while a violation with the same key head stays"""
+    import copy
+
+    def still(cand):
+        col = Collector()
+        try:
+            evaluate(env, [cand], col)
+        except Exception:
+            return False
+        return any(key_head(k) == head for k, _, _ in col.items)
+    cur = dict(id=case["id"] + "s", root=case["root"], shape=case.get("shape", "corpus"), probe=case.get("probe"), mods=copy.deepcopy(case["mods"]))
+    if case.get("missing"):
+        cur["missing"] = case["missing"]
+    changed = True
+    while changed and budget > 0:
+        changed = False
+        for rel in sorted(cur["mods"]):
+            st = cur["mods"][rel]
+            for i in range(len(st)):
+                if budget <= 0:
+                    break
+                cand = copy.deepcopy(cur)
+                del cand["mods"][rel][i]
+                budget -= 1
+                if still(cand):
+                    cur = cand
+                    changed = True
+                    break
+            if changed:
+                break
+    # drop unreachable modules
+    g = static_graph(cur)
+    keep = set(reach_from(g, [cur["root"]]))
+    cur["mods"] = {r: s for r, s in cur["mods"].items() if r in keep}
+    return cur
+
+
 def main():
     ck = Check(PID, "proof")
     b = Build()
     ck.cov["trusted_base"] = vlib.TRUSTED_COMMON + [
         "module summaries: a module is abstracted to its imports, declarations (kind, name, visibility), uses, marker statements, Wiederhole/Wenn blocks and function bodies; paths are numbers; the directory walk order of filepath.WalkDir is re-implemented in the check (lexical order) and given to the model as data",
-        "calls out of function bodies are not expanded by the model (the generator never nests calls); imports of Duden modules are outside the model",
-        "numeric diagnostic codes are re-read from src/ddperror/codes.go on every run; only the class (include / undefined / already defined / alias / other) per statement is compared, never the wording",
+        "the model computes a module's public interface from its own declarations only (cases where a non-root module declares a name it also imports are judged against the property but not compared with the model); calls out of function bodies are not expanded by the model (the generator never nests calls); imports of Duden modules are outside the model",
+        "numeric diagnostic codes are re-read from src/ddperror/codes.go on every run; only the class (include / undefined / already defined / alias / other, 'refused' for a use) per statement is compared, never the wording",
         "sha256 (module hash in mangled names) is a section variable of Mod/Mangle.v, assumed injective on the module names of one compilation",
         "Python oracle of the property: lexical scoping of imports, reachability, exactly-once / dependencies-first / before-following-code on the printed initialiser tags",
     ]
@@ -1051,19 +1185,21 @@ def main():
         ck.finish()
     codes = load_codes()
     base = vlib.scratch()
+    env = (b, parsex, model, codes, base)
     rng = ck.rng
 
-    # ---- cases ----------------------------------------------------------------------------------
+    # ---- cases: corpus first, then generated, then the exhaustive enumeration ---------------------
     cases = []
-    # corpus first
     cdir = os.path.join(vlib.VERIF, "corpus", PID)
+    n_corpus = 0
     if os.path.isdir(cdir):
         for f in sorted(os.listdir(cdir)):
             if f.endswith(".json"):
-                c = json.load(open(os.path.join(cdir, f)))
-                c["mods"] = {k: [tuplify(s) for s in v] for k, v in c["mods"].items()}
-                c["id"] = "corpus_" + f[:-5]
-                cases.append(c)
+                try:
+                    cases.append(case_from_json(json.load(open(os.path.join(cdir, f))), "corpus_" + re.sub(r"\W", "_", f[:-5])))
+                    n_corpus += 1
+                except Exception as e:
+                    log("[corpus] unreadable %s: %s" % (f, e))
     n_random = int(os.environ.get("C10_N", 110 if ck.quick else 2200))
     menu = [dict(), dict(), dict(dirs=True), dict(dirs=True), dict(overlap=True), dict(repeat=True), dict(graph="diamond"), dict(graph="diamond", overlap=True),
             dict(cycle=1), dict(cycle=2), dict(cycle=3), dict(cycle=4), dict(badname=True), dict(badname=True, overlap=True),
@@ -1083,94 +1219,73 @@ def main():
         add_root_uses(rng, c, probe)
         cases.append(c)
     ex = [] if os.environ.get("C10_NOEX") else exhaustive_cases(perms=not ck.quick)
-    if ck.quick:
-        # the quick tier enumerates the 512 graphs once (single edge order)
-        pass
     for c in ex:
         add_root_uses(rng, c, False)
     cases += ex
-    for c in cases:
-        materialise(c, base)
+    log("[c10] %d cases generated at %.1fs" % (len(cases), __import__("time").time() - ck.t0))
 
-    log("[c10] %d cases materialised at %.1fs" % (len(cases), __import__("time").time() - ck.t0))
-    # ---- model ----------------------------------------------------------------------------------
-    inp = "\n".join(l for c in cases for l in c["_model_in"]) + "\n"
-    mp = subprocess.run([model], input=inp, capture_output=True, text=True, timeout=900)
-    mlines = {l.split(" ", 1)[0]: l for l in mp.stdout.splitlines()}
-    if mp.returncode != 0 or len(mlines) != len(cases):
-        ck.broken_obligation("extracted model failed on the generated cases: rc=%s %s" % (mp.returncode, mp.stderr[-500:]), mp.stderr)
+    col = Collector()
+    try:
+        mism, stats, bres = evaluate(env, cases, col, cyc_sample=7 if ck.quick else 23)
+    except RuntimeError as e:
+        ck.broken_obligation(str(e), "")
         ck.finish()
+    log("[c10] evaluated at %.1fs (%d compiled)" % (__import__("time").time() - ck.t0, stats["compiled"]))
 
-    # ---- implementation: frontend on everything, backend where the frontend or the model accepts ----
-    log("[c10] model done at %.1fs" % (__import__("time").time() - ck.t0))
-    fres = run_frontend(parsex, b, cases)
-    log("[c10] frontend done at %.1fs" % (__import__("time").time() - ck.t0))
-    todo = []
-    for c in cases:
-        r = fres.get(c["id"])
-        if r is None:
-            r = dict(obs=dict(panic="parsex died on this input", diags=[]))
-            fres[c["id"]] = r
-        c["_idiags"] = impl_diags(c, r, codes)
-        acc = not c["_idiags"] and not r["obs"].get("panic") and not r["obs"].get("err")
-        macc = mlines[c["id"]].split(" out=", 1)[1] != "none"
-        cyc = has_cycle(static_graph(c), c["root"])
-        # cyclic graphs are also handed to kddp: no executable may come out
-        if acc or macc or (cyc and c["shape"] != "exhaustive3") or (cyc and c["shape"] == "exhaustive3" and int(c["id"][2:]) % 7 == 0):
-            todo.append(c)
-    bres = dict(zip([c["id"] for c in todo], vlib.pmap(lambda c: run_backend(b, c), todo)))
+    # ---- violations: known findings are filtered by vlib; new ones are shrunk and persisted ------
+    by_id = {c["id"]: c for c in cases}
+    fresh_heads = set()
+    for key, what, replay in col.items:
+        if ck.violation(key, what, replay):
+            head = key_head(key)
+            cid = replay.get("case_id") if isinstance(replay, dict) else None
+            if head in fresh_heads or cid not in by_id or len(fresh_heads) >= 3:
+                continue
+            fresh_heads.add(head)
+            try:
+                small = shrink_case(env, by_id[cid], head)
+                col2 = Collector()
+                evaluate(env, [small], col2)
+                for k2, w2, r2 in col2.items:
+                    if key_head(k2) == head:
+                        ck.violations[-1] = (k2, w2, r2, False)
+                        break
+                os.makedirs(cdir, exist_ok=True)
+                name = "auto_" + re.sub(r"\W+", "_", head) + "_" + __import__("hashlib").sha1(json.dumps(case_to_json(small), sort_keys=True).encode()).hexdigest()[:8] + ".json"
+                with open(os.path.join(cdir, name), "w") as fh:
+                    json.dump(case_to_json(small, note=key), fh, indent=1, ensure_ascii=False)
+            except Exception as e:
+                log("[shrink] failed: %s" % e)
 
-    log("[c10] backend (%d programs) done at %.1fs" % (len(todo), __import__("time").time() - ck.t0))
-    stats = dict(cyclic=0, compiled=0, ran=0, badname_imports=0, invisible_probes=0)
     shapes = {}
-    first_mism = None
-    n_mism = 0
     for c in cases:
-        rels = sorted(c["mods"])
-        hs = hashables(model, [os.path.join(c["_dir"], r) for r in rels]) if c["id"] in bres else []
-        hmap = dict(zip(rels, hs))
-        mism, acc, macc = judge(ck, c, fres[c["id"]], mlines[c["id"]], bres.get(c["id"]), hmap, stats)
         ck.count()
-        key = (c["shape"], c.get("opts", {}).get("graph"), tuple(sorted(c.get("opts", {}).items(), key=str)) if c["shape"] != "exhaustive3" else c["id"])
-        shapes[c["shape"] + ("/" + "+".join(sorted(k for k in c.get("opts", {}))) if c.get("opts") else "")] = shapes.get(c["shape"] + ("/" + "+".join(sorted(k for k in c.get("opts", {}))) if c.get("opts") else ""), 0) + 1
+        lab = c["shape"] + ("/" + "+".join(sorted(k for k in c.get("opts", {}))) if c.get("opts") else "")
+        shapes[lab] = shapes.get(lab, 0) + 1
         if len(reach_from(static_graph(c), [c["root"]])) >= 2:
-            ck.nontrivial(json.dumps(c["mods"], sort_keys=True, default=str))
-        if mism and not in_model_domain(c):
-            stats["outside_model_domain"] = stats.get("outside_model_domain", 0) + 1
-            mism = []
-        if mism:
-            if os.environ.get("C10_DEBUG"):
-                log("[mismatch] %s %s" % (c["id"], "; ".join(mism)[:700]))
-            n_mism += 1
-            if first_mism is None:
-                first_mism = (c, mism)
+            ck.nontrivial(json.dumps(case_to_json(c), sort_keys=True, default=str))
+    n_mism = len(mism)
     if os.environ.get("C10_DEBUG"):
-        for c in cases:
-            pass
-    log("[c10] judged at %.1fs" % (__import__("time").time() - ck.t0))
-    if first_mism and not ck.violations:
-        c, mism = first_mism
+        for cid, m in mism.items():
+            log("[mismatch] %s %s" % (cid, "; ".join(m)[:700]))
+    if mism and not ck.violations:
+        cid = sorted(mism)[0]
+        c = by_id[cid]
         # the implementation satisfied the property on every case, but the proved model no longer predicts it
-        os.makedirs(os.path.join(vlib.VERIF, "replay"), exist_ok=True)
-        ck.broken_obligation("correspondence model vs implementation fails on %d case(s); first: %s: %s" % (n_mism, c["id"], "; ".join(mism)[:1500]),
+        ck.broken_obligation("correspondence model vs implementation fails on %d case(s); first: %s: %s" % (n_mism, cid, "; ".join(mism[cid])[:1500]),
                              json.dumps(replay_of(c), ensure_ascii=False)[:6000])
-    elif first_mism:
-        log("[note] %d model/implementation disagreements accompany the violations; first: %s" % (n_mism, "; ".join(first_mism[1])[:600]))
+    elif mism:
+        cid = sorted(mism)[0]
+        log("[note] %d model/implementation disagreements accompany the violations; first: %s: %s" % (n_mism, cid, "; ".join(mism[cid])[:600]))
     ck.cov.update(dict(
-        graphs=len(cases), random_graphs=n_random, exhaustive_graphs=len(ex), shapes=shapes, stats=stats,
-        exhaustive="all 512 import graphs over 3 modules (9 possible edges incl. self-imports)%s: frontend on all, backend on every accepted one" % ("" if ck.quick else ", every order of the import statements"),
+        graphs=len(cases), corpus_graphs=n_corpus, random_graphs=n_random, exhaustive_graphs=len(ex), shapes=shapes, stats=stats,
+        exhaustive="all 512 import graphs over 3 modules (9 possible edges incl. self-imports)%s: frontend + model on all, kddp + executable on every accepted one and a sample of the cyclic ones" % ("" if ck.quick else ", every order of the import statements (4096 programs)"),
         rule="a case is one module graph written to disk (2..7 modules); non-trivial = at least two modules reachable from the root; distinct by the complete module contents",
         model_mismatches=n_mism))
-    for c in cases[:2] + cases[-1:]:
+    for c in cases[n_corpus:n_corpus + 2] + cases[-1:]:
         ck.sample(dict(id=c["id"], shape=c["shape"], root=c["_src"][c["root"]][-400:], diags=sorted(c["_idiags"]), output=(bres.get(c["id"]) or {}).get("lines")))
     shutil.rmtree(base, ignore_errors=True)
     ck.finish()
-
-
-def tuplify(s):
-    if isinstance(s, list):
-        return tuple(tuplify(x) if isinstance(x, list) and x and isinstance(x[0], (list, str)) and not all(isinstance(y, str) and y in NAME_ID for y in x) else x for x in s)
-    return s
 
 
 if __name__ == "__main__":
